@@ -73,8 +73,8 @@ var owned = map[string][]string{
 	"C04": {"lin", "panic"},
 	"C05": {"fn-calls", "racers", "chain", "panic"},
 	"C06": {"ledger-", "panic"},
-	"C07": {"range-", "panic"},
-	"C08": {"size", "size-sweep-incomplete", "panic"},
+	"C07": {"range-", "panic"}, // range-visitor-stuck included
+	"C08": {"size", "size-sweep-incomplete", "size-clear-survivor", "panic"},
 	"C13": {"deadlock", "livelock", "panic"},
 	"C16": {"read-", "lin", "panic"},
 	"C14": {"race", "payload", "panic"},
